@@ -16,10 +16,11 @@ for (mode, P, J, R, cx) in configs:
     key = ("skel J=%d P=%d R=%d cx=%d rdv=0" % (J, P, R, cx)) if mode == "skel" else ("nomaster J=%d P=%d R=%d rdv=0" % (J, P, R))
     if key not in explored: continue        # configuration not part of this shard / tier
     for seed in seeds:
+        if sum(1 for v in res["violations"] if ":hang:" in v["key"]) >= 2: break
         cmd = ["mpiexec", "--oversubscribe", "-np", str(P), exe, mode, str(J), str(R), str(cx), str(seed)]
-        try: out = subprocess.run(cmd, stdout=subprocess.PIPE, stderr=subprocess.DEVNULL, text=True, env=env, timeout=120).stdout
+        try: out = subprocess.run(cmd, stdout=subprocess.PIPE, stderr=subprocess.DEVNULL, text=True, env=env, timeout=60).stdout
         except subprocess.TimeoutExpired:
-            res["violations"].append(dict(key="C16:real-mpi:hang:%s" % mode, what="real mpiexec run did not terminate within 120 s", case=" ".join(cmd))); continue
+            res["violations"].append(dict(key="C16:real-mpi:hang:%s" % mode, what="real mpiexec run did not terminate within 60 s", case=" ".join(cmd))); continue
         res["runs"] += 1
         execs = {}; maps = {}; done = set()
         for l in out.splitlines():
